@@ -94,6 +94,13 @@ func owns(prop string, c *Contract, ob *Obligation) bool {
 	return len(c.Props) > 0 && c.Props[0] == prop
 }
 
+func variantSuffix(c *Contract) string {
+	if c != nil && c.Variant != "" {
+		return "@" + c.Variant
+	}
+	return ""
+}
+
 func hasProp(c *Contract, prop string) bool {
 	for _, p := range c.Props {
 		if p == prop {
@@ -147,18 +154,18 @@ func runCheck(prop, tier string) int {
 			trusted["assumed contract: "+c.Full] = true
 			continue
 		}
-		fn := g.fnByName[c.Full]
+		fn := g.fnByName[c.FnName()]
 		if fn == nil {
 			infra = append(infra, "contract for missing function "+c.Full)
 			continue
 		}
 		vc := g.genVC(fn, c)
 		if vc.Err != nil {
-			vios = append(vios, vio{name: shortFuncName(fn) + "/translate", detail: "the function under contract could not be translated (outside the verified subset, or a contract clause no longer type-checks): " + vc.Err.Error()})
+			vios = append(vios, vio{name: shortFuncName(fn) + variantSuffix(c) + "/translate", detail: "the function under contract could not be translated (outside the verified subset, or a contract clause no longer type-checks): " + vc.Err.Error()})
 			continue
 		}
 		vcs = append(vcs, vc)
-		fuc = append(fuc, shortFuncName(fn))
+		fuc = append(fuc, shortFuncName(fn)+variantSuffix(c))
 	}
 	if len(infra) > 0 {
 		for _, m := range infra {
